@@ -134,7 +134,7 @@ impl Prop for C05 {
         "C05"
     }
     fn rule(&self) -> String {
-        "vocabulary: every documented name and alias (278) x every prefix spelling (none, 20 symbols, 20 long names) as one word; every ordered concatenation of two names; every concatenation of three names of length <=2; each word read through `1 <word>` and through str::parse::<Compound> (must agree). Accepted words must mean one of the word's (prefix? name)+ segmentations over the independent table; a bare documented name must be accepted with its own meaning (standard meaning where the documented one deviates). Unit expressions: all sequences of <=3 items (unit with optional ^n, n in {-2,-1,2,3}) over 6 units (thorough: 8 units, and 4 items over 4 units) x separators {juxtaposition, blank, *, /}, compared with the reference reading (/ inverts everything after it, ^n binds to the unit it follows). Non-trivial = the tool accepted the word/expression and it has a non-empty unit; distinct = distinct words/expressions".into()
+        "vocabulary: every documented name and alias (278) x every prefix spelling (none, 20 symbols, 20 long names) as one word; every ordered concatenation of two names; every concatenation of three names of length <=2; each word read through `1 <word>` and through str::parse::<Compound> (must agree). Accepted words must mean one of the word's (prefix? name)+ segmentations over the independent table; a bare documented name must be accepted with its own meaning (standard meaning where the documented one deviates). Base expansion: every documented unit under the powers 1, -1, 2, -2, 3 converted to its dimensions spelled in base units (`1 T^2 to kg^2*s^-4*A^-2`): exact scale^p, never refused. Unit expressions: all sequences of <=3 items (unit with optional ^n, n in {-2,-1,2,3}) over 6 units (thorough: 8 units, and 4 items over 4 units) x separators {juxtaposition, blank, *, /}, compared with the reference reading (/ inverts everything after it, ^n binds to the unit it follows). Non-trivial = the tool accepted the word/expression and it has a non-empty unit; distinct = distinct words/expressions".into()
     }
     fn assumptions(&self) -> Vec<String> {
         vec![
@@ -172,6 +172,16 @@ impl Prop for C05 {
                 }
             }
         }
+        // every documented unit forced through its own expansion into base units, under powers
+        for u in tables::UNITS {
+            if u.affine != tables::Affine::None || u.dim == tables::DIM0 {
+                continue;
+            }
+            let Some(n) = u.names.iter().find(|n| tables::typeable(n)) else { continue };
+            for p in [1i64, -1, 2, -2, 3] {
+                sink(Case::new("base-expansion", format!("{n}|{p}")));
+            }
+        }
         let pw = ["", "^-2", "^-1", "^2", "^3"];
         match tier {
             Tier::Quick => {
@@ -196,6 +206,35 @@ impl Prop for C05 {
         let w = &case.key;
         if case.fam.starts_with("expr") {
             return check_expr(env, w);
+        }
+        if case.fam == "base-expansion" {
+            let (name, p) = w.split_once('|').unwrap();
+            let p: i64 = p.parse().unwrap();
+            let u = tables::find_by_name(name).unwrap();
+            // target: the unit's dimensions times p written in base units, negative powers explicit (no `/`)
+            let base_words = ["kg", "m", "s", "A", "K", "mol", "cd", "B"];
+            let mut parts = Vec::new();
+            for i in 0..8 {
+                let e = u.dim[i] as i64 * p;
+                if e == 1 {
+                    parts.push(base_words[i].to_string());
+                } else if e != 0 {
+                    parts.push(format!("{}^{e}", base_words[i]));
+                }
+            }
+            let target = parts.join("*");
+            let src = if p == 1 { name.to_string() } else { format!("{name}^{p}") };
+            let q = format!("1 {src} to {target}");
+            let want = crate::obs::rpow(&units::scale_of(u), p).unwrap();
+            return match crate::obs::eval_one(env.db(), &q) {
+                Ok(crate::obs::Res::Ok { value, unit, .. }) => match units::si_of(&value, &unit, false) {
+                    Ok(si) if value == want && si.value == want && si.dim == tables::dim_add(&tables::DIM0, &u.dim, p as i32) => fw::pass(true, fw::hash_str(&want.to_string())),
+                    Ok(si) => fw::fail(format!("base-expansion:{}", u.names[0]), format!("{q}: `{name}` is {} [{}], so the result must be {want}; got {value} ({})", units::scale_of(u), tables::dim_text(&u.dim), si.short())),
+                    Err(e) => fw::fail("unit-table", format!("{q}: {e}")),
+                },
+                Ok(crate::obs::Res::Err { msg, .. }) => fw::fail(format!("base-expansion-refused:{}", u.names[0]), format!("{q}: `{name}` has dimensions [{}] (power {p}) but the conversion to base units is refused: {msg}", tables::dim_text(&u.dim))),
+                Err(why) => fw::fail("results:base-expansion", format!("{q}: {why}")),
+            };
         }
         let bare = tables::find_by_name(w);
         let read = read_word(env, w);
